@@ -135,6 +135,11 @@ def sub_case(name, sc, seed, maxc, exclude, variant):
     return dict(base, events=events)
 
 
+# inner strategies that draw from their generator BEFORE the final tie-break (embedding, bootstrap): the wrapper
+# cannot reproduce their tie-break, "same selection for equal seeds" is claimed for the others
+DRAWS_BEFORE_SELECTION = ("CostEmbeddingAL", "ExpectedModelChangeMaximization")
+
+
 def par_case(name, sc, seed, n_jobs, backend, variant):
     from skactiveml.pool import ParallelUtilityEstimationWrapper
 
@@ -162,9 +167,12 @@ def par_case(name, sc, seed, n_jobs, backend, variant):
             obs.append((which, u[0], int(np.asarray(q)[0])))
         finite = [abs(v) for o in obs for v in o[1] if np.isfinite(v)]
         scale = max(max(finite), 1e-6) if finite else 1.0
+        # equal seeds give equal selections when both sides break the tie over bitwise identical rows
+        bitwise = bool(np.array_equal(obs[0][1], obs[1][1], equal_nan=True))
         for which, row, sel in obs:
             events.append({"ev": "Obs", "name": which, "vals": [[j + 1, _enc(v, scale)] for j, v in enumerate(row)],
-                           "sel": sel + 1, "samekeys": True, "cmpsel": True})
+                           "sel": sel + 1, "samekeys": True, "cmpsel": True,
+                           "eqseed": which == "wrapper" and bitwise and not name.startswith(DRAWS_BEFORE_SELECTION)})
     except Exception as ex:
         events = [{"ev": "Raised", "exc": "%s: %s" % (type(ex).__name__, str(ex)[:160])}]
     return {"id": "ParallelUtilityEstimationWrapper(%s)/%s/n_jobs=%s/%s/seed%d/v%d" % (
